@@ -45,7 +45,7 @@ Definition pixel_count (bpp : Z) (data : list Z) : Z :=
 (* evaluate the closed constants that appear once bpp is one of the seven literals *)
 Ltac norm_consts :=
   change (8 / 1) with 8 in *; change (8 / 2) with 4 in *; change (8 / 4) with 2 in *;
-  change (16 / 8) with 2 in *; change (24 / 8) with 3 in *; change (32 / 8) with 4 in *;
+  change (8 / 8) with 1 in *; change (16 / 8) with 2 in *; change (24 / 8) with 3 in *; change (32 / 8) with 4 in *;
   change (1 <? 8) with true in *; change (2 <? 8) with true in *; change (4 <? 8) with true in *;
   change (8 <? 8) with false in *; change (16 <? 8) with false in *; change (24 <? 8) with false in *;
   change (32 <? 8) with false in *;
@@ -53,17 +53,158 @@ Ltac norm_consts :=
   change (32 =? 8) with false in *;
   cbv iota in *.
 
-(* the raw iterator does not end before pixel_count items *)
-Lemma raw_load_some bpp alt data i :
-  bpp_ok bpp -> 0 <= i < pixel_count bpp data -> raw_load bpp alt data i <> None.
+Lemma opt_map_some_iff {A B} (o : option A) (f : A -> B) :
+  match o with Some b => Some (f b) | None => None end <> None <-> o <> None.
+Proof. destruct o; split; intros H; try discriminate; auto. Qed.
+
+Lemma multi_load_iff {A} (k : Z) (data : list Z) i (f : list Z -> A) :
+  0 < k -> 0 <= i ->
+  ((if i * k <=? Z.of_nat (length data)
+    then (if k <=? Z.of_nat (length (skipn (Z.to_nat (i * k)) data))
+          then Some (f (firstn (Z.to_nat k) (skipn (Z.to_nat (i * k)) data))) else None)
+    else None) <> None <-> i < Z.of_nat (length data) / k).
+Proof.
+  intros Hk Hi. rewrite skipn_length.
+  assert (0 <= i * k) by nia.
+  assert (Hq : i < Z.of_nat (length data) / k <-> (i + 1) * k <= Z.of_nat (length data)).
+  { split; intros.
+    - assert (i + 1 <= Z.of_nat (length data) / k) by lia.
+      pose proof (Z.mul_div_le (Z.of_nat (length data)) k Hk). nia.
+    - assert (i + 1 <= Z.of_nat (length data) / k) by (apply Z.div_le_lower_bound; lia). lia. }
+  rewrite Hq.
+  destruct (i * k <=? _) eqn:E1; [destruct (k <=? _) eqn:E2|];
+    (split; [intros C; try (exfalso; apply C; reflexivity); lia | intros; try discriminate; exfalso; lia]).
+Qed.
+
+(* the raw iterator yields exactly the first pixel_count items: load succeeds exactly below it *)
+Lemma raw_load_some_iff bpp alt data i :
+  bpp_ok bpp -> 0 <= i -> (raw_load bpp alt data i <> None <-> i < pixel_count bpp data).
 Proof.
   intros Hb Hi. unfold raw_load, pixel_count, bit_position, get_byte in *.
   bpp_cases Hb; subst bpp; norm_consts.
-  1-3: (match goal with |- context [nth_error ?l ?n] => destruct (nth_error l n) eqn:G end;
-        [discriminate| apply nth_error_None in G; exfalso; lia]).
-  - match goal with |- context [nth_error ?l ?n] => destruct (nth_error l n) eqn:G end;
-        [discriminate| apply nth_error_None in G; exfalso; lia].
-  - rewrite skipn_length. destruct (_ <=? _) eqn:E1; [|exfalso; lia]. destruct (_ <=? _) eqn:E2; [discriminate|exfalso; lia].
-  - rewrite skipn_length. destruct (_ <=? _) eqn:E1; [|exfalso; lia]. destruct (_ <=? _) eqn:E2; [discriminate|exfalso; lia].
-  - rewrite skipn_length. destruct (_ <=? _) eqn:E1; [|exfalso; lia]. destruct (_ <=? _) eqn:E2; [discriminate|exfalso; lia].
+  1-3: rewrite opt_map_some_iff, nth_error_Some;
+       match goal with |- context [Z.to_nat (?x / ?k)] => assert (0 <= x / k) by (apply Z.div_pos; lia) end; lia.
+  - rewrite nth_error_Some; lia.
+  - apply (multi_load_iff 2 data i (fun bytes => if alt then from_be_bytes bytes else from_le_bytes bytes)); lia.
+  - apply (multi_load_iff 3 data i (fun bytes => if alt then from_be_bytes bytes else from_le_bytes bytes)); lia.
+  - apply (multi_load_iff 4 data i (fun bytes => if alt then from_be_bytes bytes else from_le_bytes bytes)); lia.
+Qed.
+
+(* ---- padded row width and the number of items in the data -------------------- *)
+Lemma data_width_bounds img :
+  img_ok img -> sw (ir_size img) <= data_width img <= sw (ir_size img) + 7.
+Proof.
+  destruct img as [data [w h] bpp alt]. unfold img_ok, data_width, bytes_per_row, size_ok, bound.
+  cbn [ir_bpp ir_size ir_data sw sh]. intros (Hb & Hs & _).
+  bpp_cases Hb; subst bpp; norm_consts; lia.
+Qed.
+
+Lemma pixel_count_eq img :
+  img_ok img -> pixel_count (ir_bpp img) (ir_data img) = data_width img * sh (ir_size img).
+Proof.
+  destruct img as [data [w h] bpp alt]. unfold img_ok, data_width, pixel_count, bytes_per_row, size_ok, bound.
+  cbn [ir_bpp ir_size ir_data sw sh]. intros (Hb & Hs & Hl). rewrite Hl. clear Hl.
+  bpp_cases Hb; subst bpp; norm_consts.
+  1-3: ring.
+  - replace ((w * 8 + 7) / 8) with w by lia. apply Z.div_1_r.
+  - replace ((w * 16 + 7) / 8) with (w * 2) by lia. replace (w * 2 * h) with (w * h * 2) by ring. apply Z.div_mul. lia.
+  - replace ((w * 24 + 7) / 8) with (w * 3) by lia. replace (w * 3 * h) with (w * h * 3) by ring. apply Z.div_mul. lia.
+  - replace ((w * 32 + 7) / 8) with (w * 4) by lia. replace (w * 4 * h) with (w * h * 4) by ring. apply Z.div_mul. lia.
+Qed.
+
+(* the value at raw index i (0 where the data has ended; never used there by the theorems) *)
+Definition raw_get (img : image_raw) (i : Z) : Z :=
+  match raw_load (ir_bpp img) (ir_alt img) (ir_data img) i with Some v => v | None => 0 end.
+
+Definition pcount (img : image_raw) : Z := data_width img * sh (ir_size img).
+
+Lemma raw_load_get img i :
+  img_ok img -> 0 <= i < pcount img ->
+  raw_load (ir_bpp img) (ir_alt img) (ir_data img) i = Some (raw_get img i).
+Proof.
+  intros H Hi. unfold raw_get.
+  destruct (raw_load _ _ _ i) eqn:E; [reflexivity|].
+  exfalso. revert E. apply raw_load_some_iff; [apply H|lia|]. rewrite pixel_count_eq by assumption. apply Hi.
+Qed.
+
+Lemma raw_load_none img i :
+  img_ok img -> pcount img <= i -> raw_load (ir_bpp img) (ir_alt img) (ir_data img) i = None.
+Proof.
+  intros H Hi. destruct (raw_load _ _ _ i) eqn:E; [|reflexivity]. exfalso.
+  assert (0 <= pcount img).
+  { unfold pcount. pose proof (data_width_bounds img H). destruct H as (_ & Hs & _). unfold size_ok in Hs. nia. }
+  assert (Hn : raw_load (ir_bpp img) (ir_alt img) (ir_data img) i <> None) by (rewrite E; discriminate).
+  apply raw_load_some_iff in Hn; [|apply H|lia]. rewrite pixel_count_eq in Hn by assumption. unfold pcount in *. lia.
+Qed.
+
+Lemma raw_next_get img i :
+  img_ok img -> 0 <= i < pcount img ->
+  raw_next (ir_bpp img) (ir_alt img) (ir_data img) i = (Some (raw_get img i), i + 1).
+Proof. intros H Hi. unfold raw_next. rewrite raw_load_get by assumption. reflexivity. Qed.
+
+Lemma pcount_bound img : img_ok img -> 0 <= pcount img < usize_max.
+Proof.
+  intros H. pose proof (data_width_bounds img H). destruct H as (_ & Hs & _).
+  unfold pcount, size_ok, bound, usize_max in *.
+  assert (data_width img * sh (ir_size img) <= (536870912 + 7) * 536870912) by nia. nia.
+Qed.
+
+Lemma sat_add_usize_small a b : 0 <= a -> 0 <= b -> a + b <= usize_max -> sat_add_usize a b = a + b.
+Proof. intros. unfold sat_add_usize. lia. Qed.
+
+(* ---- pixel() ---------------------------------------------------------------- *)
+Lemma origin_box_contains s p :
+  contains (origin_box s) p = true <-> 0 <= px p < sw s /\ 0 <= py p < sh s.
+Proof. rewrite contains_spec. unfold origin_box. cbn [tl sz px py]. lia. Qed.
+
+Lemma index_in_range img x y :
+  img_ok img -> 0 <= x < sw (ir_size img) -> 0 <= y < sh (ir_size img) ->
+  0 <= y * data_width img + x < pcount img.
+Proof.
+  intros H Hx Hy. pose proof (data_width_bounds img H). unfold pcount. nia.
+Qed.
+
+Lemma raw_pixel_inside img p :
+  img_ok img -> contains (origin_box (ir_size img)) p = true ->
+  raw_pixel img p = Some (raw_get img (py p * data_width img + px p)).
+Proof.
+  intros H Hc. apply origin_box_contains in Hc. destruct Hc as [Hx Hy].
+  pose proof (index_in_range img _ _ H Hx Hy) as Hi. pose proof (pcount_bound img H).
+  unfold raw_pixel.
+  destruct (_ || _) eqn:E; [exfalso; lia|].
+  unfold raw_nth. rewrite sat_add_usize_small by lia.
+  replace (0 + (px p + py p * data_width img)) with (py p * data_width img + px p) by lia.
+  rewrite raw_next_get by assumption. reflexivity.
+Qed.
+
+Lemma raw_pixel_outside img p :
+  contains (origin_box (ir_size img)) p = false -> raw_pixel img p = None.
+Proof.
+  intros Hc. unfold raw_pixel. destruct (_ || _) eqn:E; [reflexivity|]. exfalso.
+  assert (contains (origin_box (ir_size img)) p = true) by (apply origin_box_contains; lia). congruence.
+Qed.
+
+Theorem pixel_none_iff img p :
+  img_ok img -> (raw_pixel img p = None <-> contains (origin_box (ir_size img)) p = false).
+Proof.
+  intros H. split.
+  - intros E. destruct (contains _ p) eqn:C; [|reflexivity]. rewrite raw_pixel_inside in E by assumption. discriminate.
+  - apply raw_pixel_outside.
+Qed.
+
+(* row padding, index form: pixel (x,y) is item number y * data_width + x of the raw iterator, where
+   data_width is the row length in pixels including the padding up to a whole byte *)
+Theorem pixel_layout img x y :
+  img_ok img -> 0 <= x < sw (ir_size img) -> 0 <= y < sh (ir_size img) ->
+  raw_pixel img (P x y) = raw_load (ir_bpp img) (ir_alt img) (ir_data img) (y * data_width img + x) /\
+  raw_pixel img (P x y) <> None /\
+  data_width img * ir_bpp img = 8 * bytes_per_row (sw (ir_size img)) (ir_bpp img).
+Proof.
+  intros H Hx Hy. assert (Hc : contains (origin_box (ir_size img)) (P x y) = true) by (apply origin_box_contains; cbn [px py]; lia).
+  rewrite raw_pixel_inside by assumption. cbn [px py].
+  rewrite raw_load_get by (try assumption; apply index_in_range; assumption).
+  split; [reflexivity|]. split; [discriminate|].
+  destruct img as [data [w h] bpp alt]. unfold img_ok, data_width, bytes_per_row in *.
+  cbn [ir_bpp ir_size ir_data sw sh] in *. destruct H as (Hb & _ & _).
+  bpp_cases Hb; subst bpp; norm_consts; lia.
 Qed.
